@@ -249,6 +249,7 @@ class Executor:
                             self._get_progress_string(),
                         )
                     )
+                handle = None
                 try:
                     slot = (
                         self._available_slots[-1]
@@ -261,6 +262,10 @@ class Executor:
                     if slot is not None:
                         self._available_slots.pop()
                 except ConductorAbort:
+                    if handle is not None:
+                        # The operation was started but may not have been
+                        # registered yet; make sure it will be terminated.
+                        self._inflight_ops.add_op(handle, next_op)
                     next_op.set_state(OperationState.ABORTED)
                     # N.B. A slot may be leaked here, but it does not matter
                     # because we are aborting the execution.
